@@ -23,6 +23,7 @@ type SpecEnv struct {
 	vars     map[string]Val
 	fr       *Frame
 	entry    map[string]Val // entry values of parameters (for old(x) inside bodies)
+	loopPre  *State         // state before the loop whose invariant is being evaluated
 	depth    int
 }
 
@@ -504,6 +505,20 @@ func (env *SpecEnv) call(e *SExpr) Val {
 			return scalar(Or(Eq(v.F[0].S, IntLit(0)), Not(Select(env.old.H(allocAKey, allocSort), v.F[0].S))), bt)
 		}
 		sfail("fresh() of %s", args[0])
+	case "sinceLoop":
+		// allocated after the enclosing loop was entered (or nil)
+		need(1)
+		if env.loopPre == nil {
+			sfail("sinceLoop() used outside a loop invariant")
+		}
+		v := env.eval(args[0])
+		switch v.K {
+		case KScalar:
+			return scalar(Or(Eq(v.S, IntLit(0)), Not(Select(env.loopPre.H(allocKey, allocSort), v.S))), bt)
+		case KSlice:
+			return scalar(Or(Eq(v.F[0].S, IntLit(0)), Not(Select(env.loopPre.H(allocAKey, allocSort), v.F[0].S))), bt)
+		}
+		sfail("sinceLoop() of %s", args[0])
 	case "allocated":
 		need(1)
 		v := env.eval(args[0])
